@@ -236,6 +236,9 @@ def classify(tr, det, stage, clause):
     elif clause in ('YangFormAsSpecified', 'NoForeignKeysInYang'):
         keys = sorted({re.sub(r'/\d+', '/#', e) for e in tr['y'].get('extra', [])})
         what = ','.join(keys[:4])
+    elif clause == 'Idempotent':
+        comps = diff_components(tr['y'], tr['y2'])
+        what = ','.join(sorted({'.'.join(re.sub(r'\[\]|#len', '', c).split('.')[1:3]) for c in comps})[:4])
     elif clause.startswith('Converts'):
         what = ','.join(sorted({e['stage'] + ':' + e['what'] for e in tr['exc']}))
     elif clause.startswith('SameLoaded'):
@@ -388,13 +391,11 @@ def stratified(docs, rng, quota):
 
 def run(chk):
     rng = random.Random(chk.seed)
-    # ---- B1
-    r = tlc.run('MC_Documents', timeout=900, tag='c18-mc')
-    chk.add_mc('MC_Documents (5 kinds, all clauses)', r)
+    # ---- B1 (all invariants of MC_Documents.cfg) and the emission of every document for B2, in one exhaustive run
+    cfg = (tlc.SPEC / 'MC_Documents.cfg').read_text() + 'INVARIANT Emit\n'
+    r2 = tlc.run('MC_Documents', cfg_text=cfg, timeout=900, tag='c18-mc')
+    chk.add_mc('MC_Documents (5 document kinds, all clauses) + emission', r2)
     chk.exhaustive = True
-    # ---- B2: documents from TLC
-    r2 = tlc.run('MC_Documents', cfg_text='INIT Init\nNEXT Next\nINVARIANT Emit\n', timeout=900, tag='c18-emit')
-    chk.add_mc('MC_Documents emission', r2)
     prec = next((d['prec'] for d in r2.emitted if 'prec' in d), None)
     docs = [d for d in r2.emitted if 'prec' not in d]
     if prec is None:
@@ -409,12 +410,28 @@ def run(chk):
     bench = Bench()
     try:
         traces, details = [], {}
-        for n, doc in enumerate(sorted(todo, key=lambda d: json.dumps(d, sort_keys=True))):
-            name = f'{doc["kind"]}-{n}'
-            tr, det = observe(bench, doc, as_int=rng.random() < 0.5, name=name)
-            traces.append(tr)
-            details[name] = (tr, det)
+        ordered = sorted(todo, key=lambda d: json.dumps(d, sort_keys=True))
+        for n, doc in enumerate(ordered):
+            # whole numbers are written as JSON integers or as floats: quick picks one at random, thorough does both
+            styles = (False, True) if chk.tier == 'thorough' else (rng.random() < 0.5,)
+            for as_int in styles:
+                name = f'{doc["kind"]}-{n}-{"int" if as_int else "float"}'
+                tr, det = observe(bench, doc, as_int=as_int, name=name)
+                traces.append(tr)
+                details[name] = (tr, det)
             chk.case(json.dumps(doc, sort_keys=True), nontrivial=True)
+        if chk.tier == 'thorough':
+            # the memoised libyang context is a harness shortcut: a sample goes through gnpy's own per-call context
+            du.uncache_yang_context()
+            try:
+                for n, doc in enumerate(rng.sample(ordered, 100)):
+                    name = f'{doc["kind"]}-uncached-{n}'
+                    tr, det = observe(bench, doc, as_int=False, name=name)
+                    traces.append(tr)
+                    details[name] = (tr, det)
+            finally:
+                du.cache_yang_context()
+            chk.cov['b2_documents_with_per_call_libyang_context'] = 100
         verdicts = judge(traces, chk, 'c18-trace')
         for name, viol in verdicts.items():
             tr, det = details[name]
@@ -431,7 +448,8 @@ def run(chk):
                                                                                           'NoForeignKeysInYang',
                                                                                           'StructurePreserved')},
                                    lib=tr['lib'] if clause == 'AliasesReportTheirName' else None))
-        chk.cov['b2_documents'] = len(traces)
+        chk.cov['b2_document_runs'] = len(traces)
+        chk.cov['b2_documents'] = len(ordered)
         chk.cov['b2_documents_by_kind'] = {k: sum(1 for t in traces if t['doc']['kind'] == k)
                                            for k in sorted({t['doc']['kind'] for t in traces})}
         chk.cov['b2_documents_enumerated'] = len(docs)
